@@ -80,9 +80,12 @@ structure OffJ where
   zone : String
   ct : String
   rid : String
+  /-- listed, but capacity cannot currently be launched into it (`Offering.Available = false`) -/
+  unavailable : Bool := false
 
 def parseOff (j : Json) : Except String OffJ := do
-  pure { zone := ← strF j "zone", ct := ← strF j "capacityType", rid := ← strF j "reservationID" }
+  pure { zone := ← strF j "zone", ct := ← strF j "capacityType", rid := ← strF j "reservationID",
+         unavailable := ← boolD j "unavailable" false }
 
 def inReq (k : String) (vs : List String) : Karp.Req.Req := { key := k, complement := false, values := vs }
 
@@ -103,7 +106,8 @@ def parseProv (j : Json) : Except String ProvJ := do
   pure { its, itErr := ← boolF j "itErr", drift := ← strF j "drift", driftErr := ← boolF j "driftErr" }
 
 def ProvJ.toModel (resLabel : String) (p : ProvJ) : Karp.Drift.Prov :=
-  { its := p.its.map (fun (n, ofs) => { name := n, offerings := ofs.map (offReqs resLabel) }),
+  { its := p.its.map (fun (n, ofs) => { name := n, offerings := ofs.map (fun o =>
+      ({ reqs := offReqs resLabel o, available := !o.unavailable } : Karp.Drift.Offer)) }),
     itErr := p.itErr, drift := p.drift, driftErr := p.driftErr }
 
 /-- a step as the harness describes it: `create` lacks the outcome of the `Requirement.Any()` calls, which is read off the
@@ -363,6 +367,14 @@ structure LaunchObs where
   err : String
   /-- `spec.requirements` of the NodeClaim as written by `ToNodeClaim` -/
   reqs : List Karp.Req.Sel
+  /-- the labels of the NodeClaim as the provisioner wrote it (before the launch) -/
+  pre : List (String × String) := []
+  /-- the labels the provider answered `Create` with (the launch choice) -/
+  provided : List (String × String) := []
+  /-- number of `CloudProvider.Create` calls for this NodeClaim -/
+  creates : Nat := 0
+  /-- did the lifecycle controller's reconcile return an error, per reconcile -/
+  errs : List Bool := []
 
 def parseLaunch (j : Json) : Except String LaunchObs := do
   pure { claim := ← natF j "claim", pool := ← strF j "pool", option := ← strF j "option",
@@ -370,7 +382,30 @@ def parseLaunch (j : Json) : Except String LaunchObs := do
          hash := ← strO j "hash", version := ← strO j "version", launched := ← boolD j "launched" false,
          fresh := ← strO j "fresh", later := ← strO j "later", afterEdit := ← strO j "afterEdit",
          err := (← strO j "err").getD "",
-         reqs := ← (match fldOpt j "reqs" with | none => pure [] | some v => listOf parseSel v) }
+         reqs := ← (match fldOpt j "reqs" with | none => pure [] | some v => listOf parseSel v),
+         pre := ← (match fldOpt j "pre" with | none => pure [] | some v => listOf parseKV v),
+         provided := ← (match fldOpt j "provided" with | none => pure [] | some v => listOf parseKV v),
+         creates := (← natO j "creates").getD 0,
+         errs := ← (match fldOpt j "errs" with | none => pure [] | some v => listOf asBool v) }
+
+/-- the launch model on one observed launch: the lifecycle controller reconciled the NodeClaim once per entry of `faults`
+    (that write failing) and once more undisturbed; `none` = the observation is what the model predicts -/
+def launchMismatch (faults : List Nat) (l : LaunchObs) : Option String :=
+  let run := Karp.Drift.launchRun { labels := l.pre } l.provided (faults ++ [0])
+  let fin := Karp.Drift.launchFinal { labels := l.pre } l.provided (faults ++ [0])
+  let mLabels := sortKV (Karp.Drift.dedupKV fin.labels)
+  if run.map (·.2) != l.errs then some s!"reconcile errors: model {run.map (·.2)}, implementation {l.errs}"
+  else if fin.launched != l.launched then some s!"Launched: model {fin.launched}, implementation {l.launched}"
+  else if fin.creates != l.creates then some s!"CloudProvider.Create calls: model {fin.creates}, implementation {l.creates}"
+  else if mLabels != sortKV l.labels then some s!"labels after the launch: model {mLabels}, implementation {sortKV l.labels}"
+  else none
+
+/-- the class of a fresh NodeClaim reported Drifted, before the recorded requirement classes are consulted: the NodeClaim
+    lost (part of) the provider's answer, or its instance type / offering is said to be gone -/
+def freshDriftClass (l : LaunchObs) (reason : Option String) (other : String) : String :=
+  if l.provided.any (fun kv => (l.labels.lookup kv.1).isNone) then "launch-choice-labels-missing"
+  else if reason == some Karp.Gen.C15Drift.reasonInstanceTypeNotFound then "fresh-claim-instance-type-not-found"
+  else other
 
 structure PoolObs where
   name : String
@@ -436,11 +471,15 @@ def selfOp (inp impl : Json) : Except String Resp := do
   let launches ← (← arrF impl "launches").mapM parseLaunch
   let launches2 ← (← arrD impl "launches2").mapM parseLaunch
   let wave2 := (← strO inp "wave2").getD ""
+  -- the API writes of the lifecycle controller that fail while the NodeClaims are launched (one entry per reconcile)
+  let launchFaults ← (← arrD inp "launchFaults").mapM asNat
+  -- what happens to the capacity between the launch and the instance-type check two hours later
+  let soldOut := (← strO inp "soldOut").getD ""
   -- the provider's catalogue: every offering is listed, available or not
   let its : List (String × List OfferingS) := scn.its.map (fun it => (it.name, it.offerings.map (fun o =>
     ({ zone := o.zone, capacityType := o.ct, reservationID := o.resID } : OfferingS))))
   let modelITs : List Karp.Drift.ITD := scn.its.map (fun it => { name := it.name, offerings := it.offerings.map (fun o =>
-    offReqs resLabel { zone := o.zone, ct := o.ct, rid := o.resID }) })
+    ({ reqs := offReqs resLabel { zone := o.zone, ct := o.ct, rid := o.resID }, available := o.available } : Karp.Drift.Offer)) })
   let mut verdict : Option (String × String) := none
   let mut modelBad : Option String := none
   for l in launches do
@@ -466,7 +505,8 @@ def selfOp (inp impl : Json) : Except String Resp := do
       -- after a successful instance-type check the result is cached; a claim that was drifted at `later` has no cache entry
       let mAfter := if l.launched then mdl { hash := po.hashAfter, version := po.versionAfter } selsAfter l.later.isSome else none
       if modelBad.isNone then
-        if mFresh != l.fresh then modelBad := some s!"claim {l.claim} option {l.option}: fresh: model {mFresh}, implementation {l.fresh}"
+        if let some why := launchMismatch launchFaults l then modelBad := some s!"claim {l.claim} option {l.option}: launch: {why}"
+        else if mFresh != l.fresh then modelBad := some s!"claim {l.claim} option {l.option}: fresh: model {mFresh}, implementation {l.fresh}"
         else if mLater != l.later then modelBad := some s!"claim {l.claim} option {l.option}: later: model {mLater}, implementation {l.later}"
         else if edit.isSome && mAfter != l.afterEdit then modelBad := some s!"claim {l.claim} option {l.option}: after edit: model {mAfter}, implementation {l.afterEdit}"
       -- the specification
@@ -475,8 +515,10 @@ def selfOp (inp impl : Json) : Except String Resp := do
         else if l.hash.isNone || l.hash != po.hash || l.version != some Karp.Drift.currentVersion then
           verdict := some (s!"claim {l.claim} of {l.pool} does not carry its NodePool's hash and the current hash version (claim {l.hash}/{l.version}, pool {po.hash}/{po.version})", "claim-not-stamped")
         else if l.fresh.isSome || l.later.isSome then
-          verdict := some (s!"claim {l.claim} of {l.pool}, freshly created and launched as the permitted option {l.option}, is reported Drifted ({(l.fresh.or l.later).getD ""})",
-            selfDriftClass pool sels l.labels l.reqs)
+          verdict := some (s!"claim {l.claim} of {l.pool}, freshly created and launched as the permitted option {l.option}, is reported Drifted ({(l.fresh.or l.later).getD ""})" ++
+            (if l.fresh.isNone then s!" two hours later (offerings in between: {if soldOut == "" then "unchanged" else soldOut ++ " sold out, still listed"})" else "") ++
+            (if launchFaults.isEmpty then "" else s!"; API writes failing during the launch: {launchFaults}; provider answered {l.provided}, the NodeClaim carries {l.labels}"),
+            freshDriftClass l (l.fresh.or l.later) (selfDriftClass pool sels l.labels l.reqs))
         else if edit.isSome then
           let f : Facts := { launched := true, poolHash := po.hashAfter, poolVersion := po.versionAfter, claimHash := l.hash,
                              claimVersion := l.version, sels := selsAfter, labels := l.labels,
@@ -508,8 +550,10 @@ def selfOp (inp impl : Json) : Except String Resp := do
           | .ok true => some Karp.Gen.C15Drift.reasonRequirementsDrifted
           | .ok false => none
           | .error _ => some "panic"
-      if modelBad.isNone && mFresh != l.fresh then
-        modelBad := some s!"second wave: claim {l.claim} option {l.option}: model {mFresh}, implementation {l.fresh}"
+      if modelBad.isNone then
+        if let some why := launchMismatch launchFaults l then modelBad := some s!"second wave: claim {l.claim} option {l.option}: launch: {why}"
+        else if mFresh != l.fresh then
+          modelBad := some s!"second wave: claim {l.claim} option {l.option}: model {mFresh}, implementation {l.fresh}"
       if verdict.isNone then
         let when_ := if l.pool == editPool then
             s!"after its {editKind} edit" ++ (if wave2 == "before-hash" then ", before the hash controller re-stamped the NodePool," else "")
@@ -521,8 +565,9 @@ def selfOp (inp impl : Json) : Except String Resp := do
               s!"is reported Drifted ({l.fresh.getD ""}) once the hash controller has caught up: it carries hash {l.hash.getD "-"}, its NodePool's template hashes to {po.hashAfter.getD "-"}",
               "fresh-claim-static-drift")
           else
-            verdict := some (s!"second wave: claim {l.claim} of {l.pool}, freshly created {when_} and launched as the permitted option {l.option}, is reported Drifted ({l.fresh.getD ""})",
-              selfDriftClass pool sels l.labels l.reqs)
+            verdict := some (s!"second wave: claim {l.claim} of {l.pool}, freshly created {when_} and launched as the permitted option {l.option}, is reported Drifted ({l.fresh.getD ""})" ++
+              (if launchFaults.isEmpty then "" else s!"; API writes failing during the launch: {launchFaults}; provider answered {l.provided}, the NodeClaim carries {l.labels}"),
+              freshDriftClass l l.fresh (selfDriftClass pool sels l.labels l.reqs))
         else if l.hash.isNone || l.hash != po.hashAfter || l.version != some Karp.Drift.currentVersion then
           verdict := some (s!"second wave: claim {l.claim} of {l.pool} does not carry its NodePool's hash and the current hash version (claim {l.hash}/{l.version}, pool {po.hashAfter}/{po.versionAfter})", "claim-not-stamped")
     | _, _ => if verdict.isNone then verdict := some (s!"second wave: claim {l.claim}: unknown pool {l.pool}", "harness")
